@@ -12,6 +12,9 @@ CHECKS = {
  "C09": dict(design="§4 C09", engine="XH",
              technique="CrossHair (z3) symbolic execution of execute_with_session / _group_notes_by / _order_notes_by / _select against an independent rendering oracle",
              note="stubs: repo returns the harness notes, query compilation and saved-query expansion replaced (C04/C15), clock; field domains finite (listed per spec)"),
+ "C10": dict(design="§5 C10", engine="XH",
+             technique="CrossHair (z3) symbolic execution of _move_note / FileManager.add_note / delete_note / hidden-metadata helpers over solver-chosen page layouts, results recompiled with the real parser and judged by the property oracle",
+             note="stubs: in-memory FS, init_from_template (C16), index lookup returns the compiled note; layouts from menus; SQL side outside"),
 }
 NA = {
  "C13": "crash points between external effects (SQLite transactions, OS file writes) cannot be made symbolic: the effects are C-level/ORM internals; with them concrete a symbolic crash index is realised at the first effect, which is enumeration of faulted runs, a different technique (DESIGN.md §8)",
